@@ -563,6 +563,53 @@ func TestVerifC19(t *testing.T) {
 	r := vh.New("file-pairs-renames")
 	defer r.Write()
 	fpRun(t, r, "C19")
+	// a pure rename of a function beyond the size guard (its fingerprint is a placeholder, so the
+	// pairing rests on the topology alone), next to ordinary functions
+	if sh, _ := vh.Shard(); sh == 0 {
+		scratch := vh.Env("SCRATCH")
+		if scratch == "" {
+			scratch = t.TempDir()
+		}
+		huge := func(name string) string {
+			var sb strings.Builder
+			fmt.Fprintf(&sb, "func %s(a int) int {\n\tt := 0\n", name)
+			for i := 0; i < 2600; i++ {
+				fmt.Fprintf(&sb, "\tif a == %d {\n\t\tt += %d\n\t}\n", i, i%7+1)
+			}
+			sb.WriteString("\treturn t\n}\n")
+			return sb.String()
+		}
+		small := "func Small(a int) int {\n\tif a > 1 {\n\t\treturn a * 2\n\t}\n\treturn a\n}\n"
+		d := filepath.Join(scratch, "oversized-rename")
+		os.MkdirAll(filepath.Join(d, "o"), 0o755)
+		os.MkdirAll(filepath.Join(d, "n"), 0o755)
+		op, np := filepath.Join(d, "o", "f.go"), filepath.Join(d, "n", "f.go")
+		os.WriteFile(op, []byte("package big\n\n"+huge("Dispatch")+"\n"+small), 0o644)
+		os.WriteFile(np, []byte("package big\n\n"+huge("Route")+"\n"+small), 0o644)
+		out, err := ComputeDiff(RealFileSystem{}, op, np)
+		r.Eval()
+		r.Nontrivial("oversized-rename")
+		if err != nil {
+			r.Fail("ComputeDiff on the oversized pair: %v", err)
+			return
+		}
+		var seen []string
+		found := false
+		for _, fd := range out.Functions {
+			seen = append(seen, fd.Function+":"+fd.Status)
+			if fd.Function == "Dispatch → Route" && fd.Status == "renamed" {
+				found = true
+			}
+		}
+		if !found || out.Summary.RenamedFunctions != 1 || out.Summary.Added != 0 || out.Summary.Removed != 0 {
+			r.Violate("rename/oversized-function", fmt.Sprintf("a function with 2600 if-statements (beyond the block-count guard) whose only change is its name Dispatch -> Route is not reported as one rename: entries %v, summary %+v", seen, out.Summary), nil)
+		}
+		for _, tm := range out.TopologyMatches {
+			if tm.OldFunction == "Dispatch" && tm.NewFunction == "Route" && tm.Similarity != 1 {
+				r.Violate("similarity/oversized-renamed-copy", fmt.Sprintf("similarity of the oversized function and its renamed copy is %v, want exactly 1", tm.Similarity), nil)
+			}
+		}
+	}
 }
 
 // TestVerifC19Similarity: similarity laws over all pairs of topologies of the program family
